@@ -409,4 +409,72 @@ theorem fileOf_roundtrip (fs : List Frame) (file : Bytes) (hwf : ∀ f ∈ fs, f
 
 end
 
+/-! ### non-vacuity: concrete frames and files (the expected bytes are what scapy 2.7.0 / dpkt 1.9.8 produced) -/
+section
+open TLX.Spec.PcapngWalk
+open TLX.Container (Item)
+
+/-- `Ether(02:…:01 → 02:…:02)/IP(10.0.0.1 → 10.0.0.2)/TCP(1234 → 80, "PA", seq 5, ack 7)/Raw(b"abc")`: odd payload -/
+def exTcp4 : Frame :=
+  ⟨1500000, [2, 0, 0, 0, 0, 1], [2, 0, 0, 0, 0, 2], ⟨[10, 0, 0, 1], 1234⟩, ⟨[10, 0, 0, 2], 80⟩, false, .tcp 0x18 5 7,
+    [0x61, 0x62, 0x63]⟩
+
+def exTcp4Bytes : Bytes :=
+  [0x02, 0x00, 0x00, 0x00, 0x00, 0x02, 0x02, 0x00, 0x00, 0x00, 0x00, 0x01, 0x08, 0x00, 0x45, 0x00, 0x00, 0x2b, 0x00,
+   0x01, 0x00, 0x00, 0x40, 0x06, 0x66, 0xca, 0x0a, 0x00, 0x00, 0x01, 0x0a, 0x00, 0x00, 0x02, 0x04, 0xd2, 0x00, 0x50,
+   0x00, 0x00, 0x00, 0x05, 0x00, 0x00, 0x00, 0x07, 0x50, 0x18, 0x20, 0x00, 0xb2, 0x36, 0x00, 0x00, 0x61, 0x62, 0x63]
+
+/-- `Ether/IPv6(fe80::2 → fe80::1)/UDP(8080 → 40000)/Raw(b"hello")` -/
+def exUdp6 : Frame :=
+  ⟨1700000000000001, [2, 0, 0, 0, 0, 2], [2, 0, 0, 0, 0, 1], ⟨[0xfe, 0x80, 0, 0, 0, 0, 0, 0, 0, 0, 0, 0, 0, 0, 0, 2], 8080⟩,
+    ⟨[0xfe, 0x80, 0, 0, 0, 0, 0, 0, 0, 0, 0, 0, 0, 0, 0, 1], 40000⟩, true, .udp, [0x68, 0x65, 0x6c, 0x6c, 0x6f]⟩
+
+def exUdp6Bytes : Bytes :=
+  [0x02, 0x00, 0x00, 0x00, 0x00, 0x01, 0x02, 0x00, 0x00, 0x00, 0x00, 0x02, 0x86, 0xdd, 0x60, 0x00, 0x00, 0x00, 0x00,
+   0x0d, 0x11, 0x40, 0xfe, 0x80, 0x00, 0x00, 0x00, 0x00, 0x00, 0x00, 0x00, 0x00, 0x00, 0x00, 0x00, 0x00, 0x00, 0x02,
+   0xfe, 0x80, 0x00, 0x00, 0x00, 0x00, 0x00, 0x00, 0x00, 0x00, 0x00, 0x00, 0x00, 0x00, 0x00, 0x01, 0x1f, 0x90, 0x9c,
+   0x40, 0x00, 0x0d, 0x03, 0x2d, 0x68, 0x65, 0x6c, 0x6c, 0x6f]
+
+/-- what `Writer(file, snaplen=20000)`, `writepkt(exTcp4Bytes, 1.5)`, `writepkt(exUdp6Bytes, 1700000000.000001)` wrote -/
+def exFile : Bytes :=
+  [0x0a, 0x0d, 0x0d, 0x0a, 0x1c, 0x00, 0x00, 0x00, 0x4d, 0x3c, 0x2b, 0x1a, 0x01, 0x00, 0x00, 0x00, 0xff, 0xff, 0xff,
+   0xff, 0xff, 0xff, 0xff, 0xff, 0x1c, 0x00, 0x00, 0x00, 0x01, 0x00, 0x00, 0x00, 0x14, 0x00, 0x00, 0x00, 0x01, 0x00,
+   0x00, 0x00, 0x20, 0x4e, 0x00, 0x00, 0x14, 0x00, 0x00, 0x00, 0x06, 0x00, 0x00, 0x00, 0x5c, 0x00, 0x00, 0x00, 0x00,
+   0x00, 0x00, 0x00, 0x00, 0x00, 0x00, 0x00, 0x60, 0xe3, 0x16, 0x00, 0x39, 0x00, 0x00, 0x00, 0x39, 0x00, 0x00, 0x00,
+   0x02, 0x00, 0x00, 0x00, 0x00, 0x02, 0x02, 0x00, 0x00, 0x00, 0x00, 0x01, 0x08, 0x00, 0x45, 0x00, 0x00, 0x2b, 0x00,
+   0x01, 0x00, 0x00, 0x40, 0x06, 0x66, 0xca, 0x0a, 0x00, 0x00, 0x01, 0x0a, 0x00, 0x00, 0x02, 0x04, 0xd2, 0x00, 0x50,
+   0x00, 0x00, 0x00, 0x05, 0x00, 0x00, 0x00, 0x07, 0x50, 0x18, 0x20, 0x00, 0xb2, 0x36, 0x00, 0x00, 0x61, 0x62, 0x63,
+   0x00, 0x00, 0x00, 0x5c, 0x00, 0x00, 0x00, 0x06, 0x00, 0x00, 0x00, 0x64, 0x00, 0x00, 0x00, 0x00, 0x00, 0x00, 0x00,
+   0x24, 0x0a, 0x06, 0x00, 0x01, 0x40, 0x1e, 0x18, 0x43, 0x00, 0x00, 0x00, 0x43, 0x00, 0x00, 0x00, 0x02, 0x00, 0x00,
+   0x00, 0x00, 0x01, 0x02, 0x00, 0x00, 0x00, 0x00, 0x02, 0x86, 0xdd, 0x60, 0x00, 0x00, 0x00, 0x00, 0x0d, 0x11, 0x40,
+   0xfe, 0x80, 0x00, 0x00, 0x00, 0x00, 0x00, 0x00, 0x00, 0x00, 0x00, 0x00, 0x00, 0x00, 0x00, 0x02, 0xfe, 0x80, 0x00,
+   0x00, 0x00, 0x00, 0x00, 0x00, 0x00, 0x00, 0x00, 0x00, 0x00, 0x00, 0x00, 0x01, 0x1f, 0x90, 0x9c, 0x40, 0x00, 0x0d,
+   0x03, 0x2d, 0x68, 0x65, 0x6c, 0x6c, 0x6f, 0x00, 0x64, 0x00, 0x00, 0x00]
+
+example : exTcp4.WF ∧ exUdp6.WF := by decide
+example : serializeFrame exTcp4 = .ok exTcp4Bytes := by decide +kernel
+example : serializeFrame exUdp6 = .ok exUdp6Bytes := by decide +kernel
+example : fileOfFrames [exTcp4, exUdp6] = .ok exFile := by decide +kernel
+example : pcapng [(exTcp4Bytes, 1500000), (exUdp6Bytes, 1700000000000001)] = .ok exFile := by decide +kernel
+example : Writable (exTcp4Bytes, 1500000) := by unfold Writable; decide
+/-- the hypotheses of `parse_serialize`, `l4_checksum_valid`, `ipv4_header_checksum_valid`, `length_fields_consistent`
+    hold for these frames, and the conclusions can be watched -/
+example : (parse exTcp4Bytes).map (fun p => (p.sport, p.dport, p.l4, p.payload)) =
+    some (1234, 80, .tcp 5 7 5 0 0x18 8192 0 [], [0x61, 0x62, 0x63]) := by decide +kernel
+example : ocSum (words ((exTcp4Bytes.drop 14).take 20)) = 0xFFFF := by decide +kernel
+example : verdict .udp true exUdp6.src.ip exUdp6.dst.ip (exUdp6Bytes.drop 54) = .valid := by decide +kernel
+example : Container.read false exFile =
+    .ok [.pkt ⟨1500000, 10 ^ 6, 0, false⟩ exTcp4Bytes, .pkt ⟨1700000000000001, 10 ^ 6, 0, false⟩ exUdp6Bytes] := by decide +kernel
+example : (walk exFile).map (·.map (·.1)) = some [0x0A0D0D0A, 1, 6, 6] := by decide +kernel
+/-- what scapy cannot serialise is an error, not bytes: a port that does not fit (ValueError), an IPv4 total length
+    above 65535 (struct.error) — while the same segment still fits IPv6 —, a time stamp of 2^64 µs (struct.error) -/
+example : serializeFrame { exTcp4 with src := ⟨[10, 0, 0, 1], 65536⟩ } = .error .value := by decide +kernel
+example : serializeFrame { exTcp4 with l4 := .tcp 0x18 4294967296 0 } = .error .value := by decide +kernel
+example : ¬ ∃ b, serializeFrame { exTcp4 with payload := List.replicate 65496 0 } = .ok b := by
+  rw [serialize_ok_iff]; simp only [exTcp4, List.length_replicate]; decide
+example : ∃ b, serializeFrame { exUdp6 with l4 := .tcp 0x18 1 1, payload := List.replicate 65515 0 } = .ok b := by
+  rw [serialize_ok_iff]; simp only [exUdp6, List.length_replicate]; decide
+example : pcapng [(exTcp4Bytes, 2 ^ 64)] = .error .struct := by decide +kernel
+end
+
 end TLX.Props.C06Bytes
